@@ -491,6 +491,40 @@ Proof.
   - apply fail_answer_non_success; [exact HO | apply good_no_rule_error].
 Qed.
 
+(** ** C01_answer_dichotomy: there is no third kind of answer *)
+Theorem answer_dichotomy en c l q :
+  (forall r, applied l r -> sane c r) -> overrides_not_success (c_respond c) ->
+  non_success (serve en c l q) \/
+  (exists r, applied l r /\ pipeline_succeeded r /\
+     serve en c l q = match en with
+                      | Decision => AHttp (accepted_code c) 0
+                      | Proxy => AHttp upstream_status 1
+                      | Envoy => AEnvoyOk
+                      end).
+Proof.
+  intros HS HO.
+  assert (RULE : forall r, applied l r -> serve en c l q = serve_rule en c r q ->
+            non_success (serve en c l q) \/
+            (pipeline_succeeded r /\
+             serve en c l q = match en with
+                              | Decision => AHttp (accepted_code c) 0
+                              | Proxy => AHttp upstream_status 1
+                              | Envoy => AEnvoyOk
+                              end)).
+  { intros r Ap E. pose proof (HS r Ap) as S. rewrite E.
+    destruct (run_rule en r q) eqn:RR;
+      try (left; apply serve_rule_failed; [exact S | congruence]).
+    unfold serve_rule. rewrite RR.
+    destruct (positive_answer_cases en c (backend r) HO) as [P|P]; [right | left; exact P].
+    split; [|exact P]. destruct S as (_ & _ & N & _). eapply run_rule_ROk_succeeded; eauto. }
+  destruct l as [r|r|]; simpl.
+  - destruct (RULE r (or_introl eq_refl) eq_refl) as [H|[H1 H2]]; [left; exact H|].
+    right. exists r. split; [left; reflexivity | split; assumption].
+  - destruct (RULE r (or_intror eq_refl) eq_refl) as [H|[H1 H2]]; [left; exact H|].
+    right. exists r. split; [right; reflexivity | split; assumption].
+  - left. apply fail_answer_non_success; [exact HO | apply good_no_rule_error].
+Qed.
+
 (** ** C01_error_handler_cannot_rescue: whatever error pipeline the rule has *)
 Definition with_eh (r : rule) (l : list ehstep) : rule :=
   {| sc := sc r; sh := sh r; fi := fi r; eh := l; backend := backend r; slashes_off := slashes_off r |}.
